@@ -91,12 +91,28 @@ func GenerateTreeC03(r *Rng, root string, o GenOpts) *GenTree {
 			g.rewrite(dir+"/distinfo", func(s string) string { return strings.Replace(s, "$\n\n", "$\n", 1) })
 			g.feat("c03.distinfo.no-empty-line")
 		}
-		if r.Chance(d / 2) {
+		if r.Chance(d) {
+			// a patch with a fixable problem (missing empty line) whose hash in distinfo MATCHES:
+			// fixing the patch makes pkglint update distinfo in a silent follow-up fix (AutofixDistinfo)
 			if ents, err := os.ReadDir(g.Path(dir + "/patches")); err == nil && len(ents) > 0 {
-				// NB: changes the patch, so its distinfo hash goes stale as well
-				g.rewrite(dir+"/patches/"+ents[0].Name(), func(s string) string { return strings.Replace(s, "$\n\n", "$\n", 1) })
-				g.feat("c03.patch.no-empty-line")
+				pn := ents[r.Intn(len(ents))].Name()
+				before := g.Read(dir + "/patches/" + pn)
+				if g.rewrite(dir+"/patches/"+pn, func(s string) string { return strings.Replace(s, "$\n\n", "$\n", 1) }) {
+					after := g.Read(dir + "/patches/" + pn)
+					oldSum, newSum := netbsdFilteredSha1(before), netbsdFilteredSha1(after)
+					if r.Chance(85) && g.rewrite(dir+"/distinfo", func(s string) string { return strings.Replace(s, oldSum, newSum, 1) }) {
+						g.feat("c03.patch.no-empty-line.distinfo-matches")
+					} else {
+						g.feat("c03.patch.no-empty-line.distinfo-stale")
+					}
+				}
 			}
+		}
+		if r.Chance(d) {
+			// a makefile fragment with one fix that is detected from the parsed text and one from the raw text
+			ls := []string{cvsID, "", "FRAG_DIR=\t$(PREFIX)/share/" + name, "FRAG_FLAG=\tvalue" + Pick(r, []string{" ", "\t", ""}), "FRAG_LONGER_NAME=  x"}
+			g.put(dir+"/version.mk", strings.Join(ls, "\n")+"\n")
+			g.feat("c03.fragment-mk")
 		}
 		if r.Chance(d / 3) {
 			f := Pick(r, []string{"PLIST", "distinfo", "DESCR", "Makefile.common", "buildlink3.mk", "options.mk", "ALTERNATIVES"})
@@ -115,6 +131,14 @@ func GenerateTreeC03(r *Rng, root string, o GenOpts) *GenTree {
 					return strings.Replace(s, ".include \"../../mk/bsd.pkg.mk\"", inc+".include \"../../mk/bsd.pkg.mk\"", 1)
 				}) {
 					g.feat("c03.include-other-common")
+					if r.Chance(50) {
+						// no "used by" paragraph at all: CheckUsedBy inserts an empty line in a silent fix
+						if g.rewrite(other+"/Makefile.common", func(s string) string {
+							return strings.Replace(s, "# used by "+other+"/Makefile\n\n", "", 1)
+						}) {
+							g.feat("c03.common-without-used-by")
+						}
+					}
 				}
 				break
 			}
